@@ -92,7 +92,7 @@ Definition seq_inverse (ts : list tr) (src : list N) (dcap : nat) (skip : N) : i
 
 (* ---------- scripted stages used by the correspondence harness (harness/seqm.go) ---------- *)
 (* Tag k m: prepend k bytes m (expands by k); Strip k m: remove k leading bytes m when present,
-   decline otherwise (shrinks); Rev: reverse; Decline: never applies *)
+   decline otherwise or when the output slice is too short - possible only behind a Lie stage - (shrinks); Rev: reverse; Decline: never applies *)
 Inductive kind := KTag (k : nat) (m : N) | KStrip (k : nat) (m : N) | KRev | KDecline
   | KLie (k : nat) (m : N).   (* like KTag but MaxEncodedLen claims n: breaks the contract, exercises the error paths *)
 
@@ -104,7 +104,7 @@ Definition mk_stage (kd : kind) : tr :=
                     (fun y cap => if (length y <? k) || negb (all_eq m (firstn k y)) || (cap <? length y - k) then None
                                   else Some (skipn k y))
                     (fun n => n + k)
-  | KStrip k m => mkT (fun x cap => if (length x <=? k) || negb (all_eq m (firstn k x)) then None else Some (skipn k x))
+  | KStrip k m => mkT (fun x cap => if (length x <=? k) || negb (all_eq m (firstn k x)) || (cap <? length x - k) then None else Some (skipn k x))
                       (fun y cap => if cap <? length y + k then None else Some (repeat m k ++ y))
                       (fun n => n)
   | KRev => mkT (fun x cap => if cap <? length x then None else Some (rev x))
